@@ -143,26 +143,33 @@ def applyBin {V} (r : BinRes V) (rest : List V) : CalcRes V :=
 
 /-- `calculate(opdStack, opt)`: three sequential `if`s, each guarded by a length check,
 so no panic outcome exists here. -/
-def calculate {V} (S : Sem V) (opd : List V) (t : Tok) : CalcRes V :=
-  let s1 : CalcRes V :=
-    if t.val == "-" && t.ty == .opPrefix then
-      match opd with
-      | [] => ⟨opd, true⟩
-      | x :: r => ⟨S.neg x :: r, false⟩
-    else ⟨opd, false⟩
-  if s1.failed then s1 else
-  let s2 : CalcRes V :=
-    if t.val == "-" && t.ty == .opInfix then
-      match s1.opd with
-      | r :: l :: rest => applyBin (S.sub2 r l) rest
-      | _ => ⟨s1.opd, true⟩
-    else s1
-  if s2.failed then s2 else
+def calcNeg {V} (S : Sem V) (opd : List V) (t : Tok) : CalcRes V :=
+  if t.val == "-" && t.ty == .opPrefix then
+    match opd with
+    | [] => ⟨opd, true⟩
+    | x :: r => ⟨S.neg x :: r, false⟩
+  else ⟨opd, false⟩
+
+def calcSub {V} (S : Sem V) (opd : List V) (t : Tok) : CalcRes V :=
+  if t.val == "-" && t.ty == .opInfix then
+    match opd with
+    | r :: l :: rest => applyBin (S.sub2 r l) rest
+    | _ => ⟨opd, true⟩
+  else ⟨opd, false⟩
+
+def calcBin {V} (S : Sem V) (opd : List V) (t : Tok) : CalcRes V :=
   if Facts.C09.calcOps.contains t.val then
-    match s2.opd with
+    match opd with
     | r :: l :: rest => applyBin (S.bin t.val r l) rest
-    | _ => ⟨s2.opd, true⟩
-  else s2
+    | _ => ⟨opd, true⟩
+  else ⟨opd, false⟩
+
+def calculate {V} (S : Sem V) (opd : List V) (t : Tok) : CalcRes V :=
+  let s1 := calcNeg S opd t
+  if s1.failed then s1 else
+  let s2 := calcSub S s1.opd t
+  if s2.failed then s2 else
+  calcBin S s2.opd t
 
 /-- the `for tokenPriority <= topOptPriority` loop of `parseOperatorPrefixToken`;
 `none` = `calculate` returned an error -/
@@ -197,6 +204,14 @@ def closeParen {V} (S : Sem V) : List Tok → List V → Outcome (List Tok × Li
       let c := calculate S opd top
       if c.failed then .err else closeParen S rest c.opd
 
+/-- `if token.TType == efp.TokenTypeOperatorPostfix && !opdStack.Empty() { pop; push(Number / 100) }` -/
+def applyPostfix {V} (S : Sem V) (t : Tok) (opd : List V) : List V :=
+  if t.ty == .opPostfix then
+    match opd with
+    | [] => opd
+    | x :: r => S.pct x :: r
+  else opd
+
 /-- `parseToken(ctx, sheet, token, opdStack, optStack)` -/
 def parseToken {V} (S : Sem V) (t0 : Tok) (opd : List V) (opt : List Tok) :
     Outcome (List V × List Tok) :=
@@ -222,11 +237,7 @@ def parseToken {V} (S : Sem V) (t0 : Tok) (opd : List V) (opt : List Tok) :
   | .panic => .panic
   | .ok (opt, opd) =>
   -- postfix %
-  let opd := if t.ty == .opPostfix then
-      match opd with
-      | [] => opd
-      | x :: r => S.pct x :: r
-    else opd
+  let opd := applyPostfix S t opd
   -- operand
   let opd := if isOperand t then S.ofTok t :: opd else opd
   .ok (opd, opt)
